@@ -53,7 +53,7 @@ class Recorder:
 class C03(core.Check):
     pid = "C03"
     level = "exploration"
-    quick_runs = 3000
+    quick_runs = 7000
     thorough_runs = 600000
     quick_budget_s = 45.0
     thorough_budget_s = 1500.0
@@ -94,15 +94,32 @@ class C03(core.Check):
         kinds = [k for k in self.vocab.kinds_for(typ, key) if not (k == "regex" and key not in ("expression", "filter", "text"))]
         if not kinds:
             return None
-        kind = r.choice(kinds)
+        enums = [k for k in kinds if k.startswith("enum:")]
+        kind = r.choice(enums) if (enums and key in self._focus and r.random() < 0.6) else r.choice(kinds)
         v, toks = self.vocab.gen(r, kind, key)
         return ["attr", toks, v, kind]
+
+    _focus: tuple = ()
+
+    def shared_keywords(self):
+        """keyword names that exist in two or more object types (their definitions differ per type)"""
+        cnt = {}
+        for t, kws in self.vocab.keywords.items():
+            for k in kws:
+                cnt.setdefault(k, set()).add(t)
+        return sorted(k for k, ts in cnt.items() if len(ts) >= 2)
 
     def gen_block(self, r, typ, depth=0):
         items = []
         kws = sorted(self.vocab.keywords.get(typ, {}))
         r.shuffle(kws)
-        for k in kws[: r.choice([0, 1, 2, 3, 5, 8])]:
+        chosen = kws[: r.choice([0, 1, 2, 3, 5, 8])]
+        # swarm: this run's focus keywords appear in every object type that has them, so that the same
+        # keyword name is printed for different types (with different definitions) within one document
+        for k in self._focus:
+            if k in self.vocab.keywords.get(typ, {}) and k not in chosen and r.random() < 0.7:
+                chosen.append(k)
+        for k in chosen:
             a = self.gen_attr(r, typ, k)
             if a:
                 items.append([k, a])
@@ -263,6 +280,8 @@ class C03(core.Check):
         s = core.Streams(seed)
         k, r, w = s("knobs"), s("ops"), s("workload")
         root_t = k.choice(["map", "map", "map", "layer", "class", "style", "label", "legend", "scalebar", "web"])
+        shared = self.shared_keywords()
+        self._focus = tuple(k.sample(shared, k.choice([0, 1, 2, 3]))) if shared else ()
         model = self.gen_block(w, root_t)
         shadow = json.loads(json.dumps(model))
         steps = []
@@ -474,7 +493,15 @@ class C03(core.Check):
                     cur = self.get_item(s, lk)
                     if cur is not None and cur[0] != "blocks":
                         continue
-                    text = "\n".join(l for b in step["blocks"] for l in self.render(b, step["quote"]))
+                    toks = []
+                    for b in step["blocks"]:
+                        M.block_tokens(b, toks)
+                    present = {q for q in "\"'" for c, t in toks if c == "Q" and q in t}
+                    q = step["quote"] if step["quote"] not in present else ("'" if step["quote"] == '"' else '"')
+                    if q in present:
+                        bump("skipped.snippet_with_both_quote_characters")
+                        continue
+                    text = "\n".join(l for b in step["blocks"] for l in self.render(b, q))
                     pr = core.call(lambda: mf.loads(text))
                     if pr[0] != "ok":
                         bump("skipped.snippet_not_parseable")  # parsing is other properties' subject
@@ -536,8 +563,18 @@ class C03(core.Check):
                 bump("op." + op)
                 continue
             # ---------------- print and check
-            kw = PP[step["pp"] % len(PP)]
+            kw = dict(PP[step["pp"] % len(PP)])
             want = M.expected(shadow)
+            if want[0] == "tokens":
+                # strings containing the output quote character are outside the guarantee: print with the
+                # other quote, or skip the print when both quote characters occur
+                present = {q for q in "\"'" for c, t in want[1] if c == "Q" and q in t}
+                if kw.get("quote", '"') in present:
+                    other = "'" if kw.get("quote", '"') == '"' else '"'
+                    if other in present:
+                        bump("skipped.both_quote_characters_in_values")
+                        continue
+                    kw["quote"] = other
             how = step["how"]
             fired_before = len(fs.fired_faults)
             fs.files["/simfs/out/map.map"] = b"OLD CONTENT\n"
